@@ -1,6 +1,9 @@
 package sym
 
 import (
+	"fmt"
+	"time"
+
 	"golang.org/x/tools/go/ssa"
 
 	"verif/engine/smt"
@@ -75,6 +78,10 @@ func (x *Exec) mergeCall(fn *ssa.Function, args []Value, bind []Value) Value {
 			work = append(work, np)
 		}
 		n++
+		if n%200 == 0 {
+			x.Summ["merged-paths"] += 0
+			x.checkPathBudgetMerge(fn.String(), n)
+		}
 		if n > limit {
 			x.Unsupported("merged callee %s has more than %d paths", fn.String(), limit)
 		}
@@ -264,4 +271,10 @@ func (x *Exec) concErr(v Value) Value {
 		return ce.E
 	}
 	return IfaceV{}
+}
+
+func (x *Exec) checkPathBudgetMerge(fn string, n int) {
+	if x.Cfg.PathBudgetS > 0 && time.Since(x.started).Seconds() > float64(x.Cfg.PathBudgetS) {
+		x.exit("unwind", fmt.Sprintf("path time budget exhausted while merging %s (%d local paths so far)", fn, n))
+	}
 }
